@@ -152,6 +152,12 @@ Section Knn.
     Some (firstn (N.to_nat search_k)
             (stable_sort rle (map (fun p => (fst p, metric q (cs_vec (snd p)))) (indexed s 0%N)))).
 
+  (* an oracle that does not see some slots (an ANN search that missed them) but is otherwise exhaustive *)
+  Definition exact_ann_vis (vis : N -> bool) (s : cstore) : ann_t := fun q search_k =>
+    Some (firstn (N.to_nat search_k)
+            (filter (fun p => vis (fst p))
+               (stable_sort rle (map (fun p => (fst p, metric q (cs_vec (snd p)))) (indexed s 0%N))))).
+
   (* ------------------------------------------------------------ hot tier *)
   (* a mirror entry: HotDocument { embedding, coherence = (version, digest) } under its doc id *)
   Record hentry : Type := mk_hentry { h_id : N; h_vec : vec; h_ver : N; h_dg : dg }.
@@ -427,6 +433,7 @@ Arguments batch_map {vec dist dg} ann s k search_k qs.
 Arguments cold_search_batch {vec dist dg} ann s qs k.
 Arguments indexed {vec dg} s i.
 Arguments exact_ann {vec dist dg} dle metric s.
+Arguments exact_ann_vis {vec dist dg} dle metric vis s.
 Arguments heap_push {dist} dle x h. Arguments heap_peek {dist} h. Arguments heap_pop {dist} h.
 Arguments hot_step {dist} dle dfin k h c.
 Arguments hot_cands {vec dist dg} metric q hs.
@@ -485,8 +492,7 @@ Record ecase : Type := mk_ecase {
   c_cold : cstore zvec N; c_hot : hot zvec N; c_obs : list zres
 }.
 Definition zq : zvec := (0%Z, 0%N).
-Definition model_results (c : ecase) : option (list zres) :=
-  let ann := exact_ann Z.leb zmetric (c_cold c) in
+Definition model_results_with (ann : ann_t zvec Z) (c : ecase) : option (list zres) :=
   match c_kind c with
   | KBackend => match cold_search ann (c_cold c) QOk zq (c_k c) with Ok out => Some out | Err _ => None end
   | KTiered =>
@@ -498,8 +504,22 @@ Definition model_results (c : ecase) : option (list zres) :=
               (mk_engine (c_cold c) (c_hot c)) QOk zq (c_k c) (Some 1%N) None calm with
       | (Ok r, _) => Some (r_results r) | _ => None end
   end.
+Definition model_results (c : ecase) : option (list zres) :=
+  model_results_with (exact_ann Z.leb zmetric (c_cold c)) c.
 Definition ecase_ok (c : ecase) : bool :=
   match model_results c with Some m => same_modulo_ties (c_slack c) m (c_obs c) | None => false end.
+(* Second chance for a case that disagrees with the exhaustive oracle: is the observation what the model
+   yields when the ANN search simply did not reach the live slots of the documents that are absent from the
+   observation?  (Sound but incomplete graph search — ANN completeness is not part of C06; such cases are
+   counted and bounded by the check, not accepted silently.) *)
+Definition slot_visible (c : ecase) (i : N) : bool :=
+  match nth_error (c_cold c) (N.to_nat i) with
+  | Some sl => match cs_ext sl with Some e => ids_in (c_obs c) e | None => true end
+  | None => true
+  end.
+Definition ecase_ok_incomplete_ann (c : ecase) : bool :=
+  match model_results_with (exact_ann_vis Z.leb zmetric (slot_visible c) (c_cold c)) c with
+  | Some m => same_modulo_ties (c_slack c) m (c_obs c) | None => false end.
 
 (* merge differential: obs must be an admissible truncation of the model's merged map, and carry the same
    distance sequence as the model's own output *)
@@ -507,3 +527,19 @@ Definition merge_case_ok (hot_r cold_r : list (N * N)) (k : nat) (obs : list (N 
   topk_modulo_ties N.leb N.eqb k (merge_map hot_r cold_r) obs
   && forallb (fun p => (snd (fst p) =? snd (snd p))%N) (combine (merge_knn N.leb (fun l => l) hot_r cold_r k) obs)
   && (length (merge_knn N.leb (fun l => l) hot_r cold_r k) =? length obs)%nat.
+
+(* compact literal form of an engine case: everything a Z (ext = -1 for a tombstone; fresh = 1 / 0) *)
+Definition raw_ecase : Type :=
+  (Z * Z * Z * Z * list (Z * Z * Z) * list (Z * Z * Z * Z) * list (Z * Z))%type.
+Definition ecase_of_raw (r : raw_ecase) : ecase :=
+  match r with
+  | (id, kind, k, slack, cold, hotl, obs) =>
+      mk_ecase (Z.to_N id)
+        (if (kind =? 0)%Z then KBackend else if (kind =? 1)%Z then KTiered else KTimed)
+        (Z.to_N k) slack
+        (map (fun s => match s with (e, key, v) =>
+                mk_cslot (if (e <? 0)%Z then None else Some (Z.to_N e)) (key, Z.to_N v) 1%N (Z.to_N v) end) cold)
+        (map (fun h => match h with (i, key, v, f) =>
+                mk_hentry (Z.to_N i) (key, Z.to_N v) (Z.to_N f) (Z.to_N v) end) hotl)
+        (map (fun o => (Z.to_N (fst o), snd o)) obs)
+  end.
